@@ -8,11 +8,12 @@ use bytes::Bytes;
 use scylla::deserialize::row::{ColumnIterator, DeserializeRow as DeserializeRowTrait};
 use scylla::deserialize::value::DeserializeValue as DeserializeValueTrait;
 use scylla::deserialize::{DeserializationError, FrameSlice, TypeCheckError};
-use scylla::frame::response::result::{ColumnSpec, ColumnType, NativeType, TableSpec, UserDefinedType};
+use scylla::frame::response::result::{CollectionType, ColumnSpec, ColumnType, NativeType, TableSpec, UserDefinedType};
 use scylla::serialize::SerializationError;
 use scylla::serialize::row::{RowSerializationContext, SerializeRow as SerializeRowTrait};
 use scylla::serialize::value::SerializeValue as SerializeValueTrait;
 use scylla::serialize::writers::{CellWriter, RowWriter};
+use scylla::value::MaybeUnset;
 use scylla::{DeserializeRow, DeserializeValue, SerializeRow, SerializeValue};
 use std::sync::Arc;
 
@@ -27,12 +28,32 @@ pub struct Col {
     pub ty: &'static str,
 }
 
+/// the one nested UDT type of the family: `ks.t2 (a int, b text)` (Rust side: `U2`)
+pub fn udt2_type() -> ColumnType<'static> {
+    ColumnType::UserDefinedType {
+        frozen: true,
+        definition: Arc::new(UserDefinedType {
+            name: "t2".into(),
+            keyspace: "ks".into(),
+            field_types: vec![
+                ("a".into(), ColumnType::Native(NativeType::Int)),
+                ("b".into(), ColumnType::Native(NativeType::Text)),
+            ],
+        }),
+    }
+}
+
 pub fn column_type(ty: &str) -> ColumnType<'static> {
-    ColumnType::Native(match ty {
-        "int" => NativeType::Int,
-        "text" => NativeType::Text,
-        _ => NativeType::Boolean,
-    })
+    match ty {
+        "int" => ColumnType::Native(NativeType::Int),
+        "text" => ColumnType::Native(NativeType::Text),
+        "list" => ColumnType::Collection {
+            frozen: false,
+            typ: CollectionType::List(Box::new(ColumnType::Native(NativeType::Int))),
+        },
+        "udt" => udt2_type(),
+        _ => ColumnType::Native(NativeType::Boolean),
+    }
 }
 
 pub trait Leafy: Sized {
@@ -75,6 +96,66 @@ impl<T: Leafy> Leafy for Option<T> {
     }
 }
 
+/// `Vec<i32>`: payload = the CQL `list<int>` bytes (`[i32 count]([i32 4][4 bytes])*`)
+impl Leafy for Vec<i32> {
+    fn build(it: &mut dyn Iterator<Item = Leaf>) -> Self {
+        let b = it.next().expect("value list too short").expect("None for Vec<i32>");
+        let n = i32::from_be_bytes(b[0..4].try_into().unwrap()) as usize;
+        assert_eq!(b.len(), 4 + 8 * n, "list<int> payload");
+        (0..n).map(|i| i32::from_be_bytes(b[8 + 8 * i..12 + 8 * i].try_into().unwrap())).collect()
+    }
+    fn dump(&self, out: &mut Vec<Leaf>) {
+        let mut b = (self.len() as i32).to_be_bytes().to_vec();
+        for x in self {
+            b.extend_from_slice(&4i32.to_be_bytes());
+            b.extend_from_slice(&x.to_be_bytes());
+        }
+        out.push(Some(b))
+    }
+}
+
+/// `MaybeUnset<i32>` (serialization only): `None` = `Unset`
+impl Leafy for MaybeUnset<i32> {
+    fn build(it: &mut dyn Iterator<Item = Leaf>) -> Self {
+        match it.next().expect("value list too short") {
+            None => MaybeUnset::Unset,
+            Some(b) => MaybeUnset::Set(i32::from_be_bytes(b.as_slice().try_into().expect("i32 needs 4 bytes"))),
+        }
+    }
+    fn dump(&self, out: &mut Vec<Leaf>) {
+        match self {
+            MaybeUnset::Unset => out.push(None),
+            MaybeUnset::Set(v) => out.push(Some(v.to_be_bytes().to_vec())),
+        }
+    }
+}
+
+/// a derived struct used as a FIELD TYPE (nested UDT `ks.t2`); one leaf whose payload is the UDT's cells
+#[derive(SerializeValue, DeserializeValue, Debug, Default, Clone, PartialEq)]
+pub struct U2 {
+    pub a: i32,
+    pub b: String,
+}
+
+impl Leafy for U2 {
+    fn build(it: &mut dyn Iterator<Item = Leaf>) -> Self {
+        let b = it.next().expect("value list too short").expect("None for U2");
+        let la = i32::from_be_bytes(b[0..4].try_into().unwrap());
+        assert_eq!(la, 4, "U2.a");
+        let a = i32::from_be_bytes(b[4..8].try_into().unwrap());
+        let lb = i32::from_be_bytes(b[8..12].try_into().unwrap()) as usize;
+        assert_eq!(b.len(), 12 + lb, "U2 payload");
+        U2 { a, b: String::from_utf8(b[12..].to_vec()).expect("utf8") }
+    }
+    fn dump(&self, out: &mut Vec<Leaf>) {
+        let mut b = 4i32.to_be_bytes().to_vec();
+        b.extend_from_slice(&self.a.to_be_bytes());
+        b.extend_from_slice(&(self.b.len() as i32).to_be_bytes());
+        b.extend_from_slice(self.b.as_bytes());
+        out.push(Some(b))
+    }
+}
+
 pub enum DeErr {
     TypeCheck(TypeCheckError),
     Deser(DeserializationError),
@@ -85,7 +166,8 @@ pub type DeFn = fn(&[Col], &[u8]) -> Result<Vec<Leaf>, DeErr>;
 
 pub struct StructInfo {
     pub name: &'static str,
-    /// `value` (SerializeValue + DeserializeValue), `row` (SerializeRow + DeserializeRow), `srow` (SerializeRow)
+    /// `value` (SerializeValue + DeserializeValue), `svalue` (SerializeValue), `row` (SerializeRow + DeserializeRow),
+    /// `srow` (SerializeRow)
     pub kind: &'static str,
     /// tokens inside the struct-level `#[scylla(..)]`
     pub sattr: &'static str,
@@ -187,6 +269,12 @@ macro_rules! def_struct {
         pub struct $name { $( #[scylla($($fattr)*)] pub $f : $t ),* }
         leafy_impl!($name { $( $f : $t ),* });
     };
+    (svalue $name:ident ( $($sattr:tt)* ) { $( $f:ident : $t:ty [ $($fattr:tt)* ] ),* }) => {
+        #[derive(SerializeValue, Debug)]
+        #[scylla($($sattr)*)]
+        pub struct $name { $( #[scylla($($fattr)*)] pub $f : $t ),* }
+        leafy_impl!($name { $( $f : $t ),* });
+    };
     (row $name:ident ( $($sattr:tt)* ) { $( $f:ident : $t:ty [ $($fattr:tt)* ] ),* }) => {
         #[derive(SerializeRow, DeserializeRow, Debug)]
         #[scylla($($sattr)*)]
@@ -203,6 +291,7 @@ macro_rules! def_struct {
 
 macro_rules! fns {
     (value $name:ident) => { (ser_value::<$name> as SerFn, Some(de_value::<$name> as DeFn)) };
+    (svalue $name:ident) => { (ser_value::<$name> as SerFn, None) };
     (row $name:ident) => { (ser_row::<$name> as SerFn, Some(de_row::<$name> as DeFn)) };
     (srow $name:ident) => { (ser_row::<$name> as SerFn, None) };
 }
@@ -254,6 +343,12 @@ family! {
     value V27 (flavor = "enforce_order", forbid_excess_udt_fields) { a: i32 [], b: i32 [] }
     value V28 (flavor = "enforce_order") { a: i32 [allow_missing], b: String [], c: i32 [allow_missing], d: String [allow_missing], e: i32 [], f: Option<i32> [allow_missing] }
     value V29 (flavor = "enforce_order") { a: i32 [allow_missing], b: i32 [allow_missing], c: i32 [] }
+    // ---------------- fields of collection / nested-UDT / MaybeUnset type through the generated code ----------------
+    value V31 (flavor = "match_by_name") { a: i32 [], l: Vec<i32> [], u: U2 [] }
+    value V32 (flavor = "match_by_name") { l: Vec<i32> [allow_missing], o: Option<U2> [], a: i32 [default_when_null], u: U2 [rename = "uu", default_when_null] }
+    value V33 (flavor = "enforce_order") { u: U2 [], l: Option<Vec<i32>> [], a: i32 [allow_missing] }
+    svalue V34 (flavor = "match_by_name") { a: MaybeUnset<i32> [], b: String [], l: Vec<i32> [allow_missing] }
+    svalue V35 (flavor = "enforce_order", forbid_excess_udt_fields) { u: U2 [], a: MaybeUnset<i32> [] }
     // ---------------- row mappings, by name ----------------
     row R01 (flavor = "match_by_name") { a: i32 [] }
     row R02 (flavor = "match_by_name") { a: i32 [], b: String [] }
@@ -262,11 +357,14 @@ family! {
     row R05 (flavor = "match_by_name") { a: i32 [rename = "x"], s: String [skip], b: String [rename = "a"] }
     row R06 (flavor = "match_by_name") { a: i32 [default_when_null], b: String [], c: Option<i32> [default_when_null] }
     row R07 (flavor = "match_by_name") { }
+    row R31 (flavor = "match_by_name") { l: Vec<i32> [], u: U2 [], a: i32 [] }
+    row R32 (flavor = "match_by_name") { u: Option<U2> [default_when_null], l: Vec<i32> [default_when_null, rename = "ll"] }
     // ---------------- row mappings, declared order ----------------
     row R21 (flavor = "enforce_order") { a: i32 [], b: String [], c: Option<i32> [] }
     row R22 (flavor = "enforce_order", skip_name_checks) { a: i32 [], b: String [], c: i32 [] }
     row R23 (flavor = "enforce_order") { a: i32 [rename = "x"], s: i32 [skip], b: String [default_when_null], c: Option<i32> [default_when_null] }
     row R24 (flavor = "enforce_order") { a: i32 [], b: i32 [], c: String [], d: Option<String> [], e: i32 [] }
+    row R33 (flavor = "enforce_order") { u: U2 [], l: Vec<i32> [default_when_null], o: Option<Vec<i32>> [] }
     // ---------------- SerializeRow with flatten (by name) ----------------
     srow I0 (flavor = "match_by_name") { x: i32 [], y: String [] }
     srow I1 (flavor = "match_by_name") { z: Option<i32> [] }
@@ -282,6 +380,8 @@ family! {
     srow S07 (flavor = "match_by_name") { e: IE [flatten], a: i32 [], inner: I0 [flatten] }
     srow S08 (flavor = "match_by_name") { s: IS [flatten], inner: I0 [flatten] }
     srow S09 (flavor = "match_by_name") { inner: I0 [flatten], e: IE [flatten], a: i32 [] }
+    srow IL (flavor = "match_by_name") { l: Vec<i32> [], m: MaybeUnset<i32> [] }
+    srow S31 (flavor = "match_by_name") { a: MaybeUnset<i32> [], inner: IL [flatten], u: U2 [] }
     // ---------------- SerializeRow with flatten (declared order) ----------------
     srow J0 (flavor = "enforce_order") { x: i32 [], y: String [] }
     srow J1 (flavor = "enforce_order", skip_name_checks) { p: i32 [] }
